@@ -2,12 +2,16 @@
 // ends (raw targets, minimal upstream CONNECT proxies over TCP and TLS, a SOCKS5 server, an origin
 // that switches protocols) exchange generated payloads through CONNECT / Upgrade tunnels of a real
 // forwarder proxy on loopback TCP, with early data, coalesced replies, arbitrary write
-// segmentation and all three orders of half-close.
+// segmentation and all three orders of half-close. The proxy's listener is plain, behind TLS or
+// rate-limited and the far leg plain, TLS or wrapped (modes in env.go), so that some configurations
+// have no io.ReaderFrom/io.WriterTo fast path on either leg; in over a third of the tunnels of every
+// configuration both endpoints stream 1-4 MiB of different pseudo-random data at the same time.
 package c03
 
 import (
 	"encoding/json"
 	"fmt"
+	"os"
 	"sort"
 	"strings"
 	"sync"
@@ -116,6 +120,21 @@ func genCase(r *core.Rand, mode, order string, quick bool) *tunnelCase {
 			tc.Up1 = 0
 		}
 	}
+	// full duplex: both endpoints stream a large payload of their own (different seeds) at the same
+	// time before either half-closes, whatever the order of the half-closes afterwards; what one
+	// direction carries must not show in the other (cross-talk, duplication, reordering = a content
+	// mismatch at equal length). More often where both legs go through the copier's buffer.
+	share := 35
+	if bothLegsBuffered(mode) {
+		share = 55
+	}
+	if r.Chance(share) {
+		tc.Duplex = true
+		tc.Up1, tc.Down1 = r.Range(1<<20, 4<<20), r.Range(1<<20, 4<<20)
+		if r.Chance(30) { // comparable amounts: neither direction is over long before the other
+			tc.Down1 = tc.Up1 + r.Range(-4096, 4096)
+		}
+	}
 	if order != "simultaneous" {
 		tc.HoldMs = core.Pick(r, []int{0, 0, 1, 5, 20, 50})
 		if !quick && r.Chance(2) {
@@ -204,7 +223,11 @@ const (
 func Run(ctx *core.Ctx) {
 	ctx.SetRule("one case = one tunnel through the real proxy (own connection loop or http.Handler mode) routed direct / via a scripted " +
 		"upstream HTTP proxy / HTTPS proxy / SOCKS5 server / custom ConnectFunc / as an HTTP/1.1 Upgrade (101) to a scripted origin; payloads " +
-		"0 B-4 MiB each way from a seed, random write segmentation on both sides, request head and early payload in one write or cut at " +
+		"0 B-4 MiB each way from a seed (a different pseudo-random stream per direction), in over a third of the tunnels of every configuration " +
+		"1-4 MiB each way streamed by both endpoints at the same time (full duplex); the proxy's listener plain, behind TLS or rate-limited, so that " +
+		"there are configurations in which neither leg of the tunnel has an io.ReaderFrom/io.WriterTo fast path (TLS listener x https upstream / " +
+		"ConnectFunc returning a *tls.Conn / ConnectFunc returning a struct wrapper / X-Martian-Terminate-Tls / 101 body); " +
+		"random write segmentation on both sides, request head and early payload in one write or cut at " +
 		"offsets around the end of the head / byte by byte, far side sending payload in the same write as its reply, half-close order " +
 		"client-first / target-first / simultaneous with more data sent after the peer's end-of-stream was seen; a tunnel is non-trivial " +
 		"when it carries early data, a coalesced reply, a sequenced half-close or payload in both directions; distinct = distinct case objects")
@@ -216,7 +239,11 @@ func Run(ctx *core.Ctx) {
 	for _, c := range core.LoadCorpus(ctx.Root, "C03") {
 		replayWith(ctx, pool, c)
 	}
-	n := ctx.N(270, 15000)
+	modes := allModes
+	if v := os.Getenv("VERIF_C03_MODES"); v != "" { // development aid: only these modes
+		modes = strings.Split(v, ",")
+	}
+	n := ctx.N(456, 15000)
 	budget := 50 * time.Second
 	if !ctx.Quick() {
 		budget = 8 * time.Minute
@@ -252,8 +279,8 @@ func Run(ctx *core.Ctx) {
 		}
 		r := ctx.Rng.Sub()
 		// every (mode, order) pair is visited in turn, everything else is random
-		mode := allModes[i%len(allModes)]
-		order := orders[(i/len(allModes))%len(orders)]
+		mode := modes[i%len(modes)]
+		order := orders[(i/len(modes))%len(orders)]
 		tc := genCase(r, mode, order, ctx.Quick())
 		if i < 3 {
 			ctx.Sample(tc)
@@ -267,12 +294,12 @@ func Run(ctx *core.Ctx) {
 	// must have been alive
 	pool.mu.Lock()
 	defer pool.mu.Unlock()
-	modes := make([]string, 0, len(pool.envs))
+	started := make([]string, 0, len(pool.envs))
 	for m := range pool.envs {
-		modes = append(modes, m)
+		started = append(started, m)
 	}
-	sort.Strings(modes)
-	for _, m := range modes {
+	sort.Strings(started)
+	for _, m := range started {
 		pool.envs[m].finalCheck(ctx)
 	}
 }
@@ -410,6 +437,26 @@ func (e *env) evaluate(ctx *core.Ctx, tc *tunnelCase, obs *tunnelObs) {
 	}
 	if obs.Up.AfterEOF > 0 || obs.Down.AfterEOF > 0 {
 		ctx.Count("data-after-peer-eof")
+	}
+	legs := "legs/a-leg-with-readfrom-or-writeto"
+	if bothLegsBuffered(tc.Mode) {
+		legs = "legs/both-through-the-copy-buffer"
+	}
+	ctx.Count(legs)
+	if tc.Duplex {
+		ctx.Count("duplex/both-ways-1-4MiB")
+		// how much of it really was simultaneous, as seen at the endpoints (a histogram, not a verdict)
+		switch ms := obs.OverlapUs / 1000; {
+		case ms < 1:
+			ctx.Count("duplex-overlap/<1ms")
+		case ms < 10:
+			ctx.Count("duplex-overlap/1-10ms")
+		default:
+			ctx.Count("duplex-overlap/>=10ms")
+		}
+		if bothLegsBuffered(tc.Mode) && obs.OverlapUs >= 1000 {
+			ctx.Count("duplex/both-legs-buffered-and-overlapping")
+		}
 	}
 
 	impl := summarise(obs)
